@@ -1,3 +1,5 @@
+//go:build verif && (vh_all || vh_c13)
+
 package props
 
 import (
